@@ -120,14 +120,33 @@ impl GenerateConfig {
 
     /// Load configuration from a file
     pub fn from_file<P: AsRef<Path>>(path: P) -> Result<Self, ConfigError> {
+        let config = Self::parse_file(path)?;
+        config.validate()?;
+        Ok(config)
+    }
+
+    /// Read a configuration file without validating it. Callers that still apply
+    /// overrides (command-line flags) validate the final settings themselves.
+    pub fn parse_file<P: AsRef<Path>>(path: P) -> Result<Self, ConfigError> {
         let content = fs::read_to_string(path)?;
         let config: Self = serde_json::from_str(&content)?;
-        config.validate()?;
         Ok(config)
     }
 
     /// Load configuration from Tauri configuration file
     pub fn from_tauri_config<P: AsRef<Path>>(path: P) -> Result<Option<Self>, ConfigError> {
+        match Self::parse_tauri_config(path)? {
+            Some(config) => {
+                config.validate()?;
+                Ok(Some(config))
+            }
+            None => Ok(None),
+        }
+    }
+
+    /// Read the typegen section of a Tauri configuration file without validating it
+    /// (see `parse_file`)
+    pub fn parse_tauri_config<P: AsRef<Path>>(path: P) -> Result<Option<Self>, ConfigError> {
         let content = fs::read_to_string(path)?;
         let tauri_config: serde_json::Value = serde_json::from_str(&content)?;
 
@@ -184,7 +203,6 @@ impl GenerateConfig {
                     config.force = Some(force);
                 }
 
-                config.validate()?;
                 return Ok(Some(config));
             }
         }
